@@ -1545,8 +1545,25 @@ dt_dtadd(struct dt_dt_s d, struct dt_dtdur_s dur)
 #endif	/* WITH_LEAP_SECONDS */
 
 	if (d.typ == DT_SEXY) {
-		d.sexy = __sexy_add(d.sexy, dur);
-		return d;
+		switch (dur.durtyp) {
+		case DT_DURH:
+		case DT_DURM:
+		case DT_DURS:
+		case DT_DURNANO:
+		case DT_DURD:
+		case DT_DURUNK:
+			if (LIKELY(!dur.tai)) {
+				d.sexy = __sexy_add(d.sexy, dur);
+				return d;
+			}
+			/*@fallthrough@*/
+		default:
+			/* calendar units and real seconds,
+			 * go through a date/time and back */
+			d = dt_dtadd(dt_dtconv(DT_YMD, d), dur);
+			d.d = dt_dfixup(d.d);
+			return dt_dtconv(DT_SEXY, d);
+		}
 	}
 
 	dv = dur.dv;
